@@ -40,7 +40,6 @@ struct circle_case {
     // point i relative to the centre
     long rx(long i) const { return buf[i].x - cx; }
     long ry(long i) const { return buf[i].y - cy; }
-    bool has(long x, long y) const { bool f = false; for (long j = 0; j < n; ++j) f = f || (rx(j) == x && ry(j) == y); return f; }
     void done() { vp_buf_free(buf); }
 };
 
@@ -52,50 +51,77 @@ void h_circle_count(void) {
     vp_assert(c.n >= 1, "circle.writes_at_least_one_point");
     c.done();
 }
+// The clauses below are stated for one symbolic index i into the written array (i.e. for every written point).
 // within one pixel of the ideal circle: the Euclidean distance of (x,y) to the circle of radius r is |sqrt(x^2+y^2) - r|, so
 // distance <= 1  <=>  (r-1)^2 <= x^2+y^2 <= (r+1)^2   for r >= 1   (r = 0: x^2+y^2 <= 1), i.e. -(2r-1) <= x^2+y^2-r^2 <= 2r+1
 void h_circle_band(void) {
     circle_case c; c.input(); c.run();
     long lo = c.r >= 1 ? (c.r - 1) * (c.r - 1) : 0, hi = (c.r + 1) * (c.r + 1);
-    for (long i = 0; i < c.n; ++i) {
-        long x = c.rx(i), y = c.ry(i);
-        vp_assert(x >= -64 && x <= 64 && y >= -64 && y <= 64, "circle.point_near_centre");   // keeps the squares in range
-        int d2 = (int)x * (int)x + (int)y * (int)y;
-        vp_assert(d2 >= lo && d2 <= hi, "circle.within_one_pixel_of_circle");
-    }
+    long i = vp_range(0, (int)c.n - 1);
+    long x = c.rx(i), y = c.ry(i);
+    vp_assert(x >= -64 && x <= 64 && y >= -64 && y <= 64, "circle.point_near_centre");   // keeps the squares in int range
+    int d2 = (int)x * (int)x + (int)y * (int)y;
+    vp_assert(d2 >= lo && d2 <= hi, "circle.within_one_pixel_of_circle");
     c.done();
 }
 // inside the bounding box [cx-r,cx+r] x [cy-r,cy+r]
 void h_circle_bbox(void) {
     circle_case c; c.input(); c.run();
-    for (long i = 0; i < c.n; ++i)
-        vp_assert(labs_(c.rx(i)) <= c.r && labs_(c.ry(i)) <= c.r, "circle.inside_bounding_box");
+    long i = vp_range(0, (int)c.n - 1);
+    vp_assert(labs_(c.rx(i)) <= c.r && labs_(c.ry(i)) <= c.r, "circle.inside_bounding_box");
     c.done();
 }
+// Set-level clauses: the coordinates relative to the centre are range-checked at full width (|.| <= 64) and then narrowed to
+// 8 bits (lossless when the range check holds; it is an obligation of the same query), which keeps the set comparisons small.
+#define MAXPTS 128
+struct rel_set {
+    signed char X[MAXPTS], Y[MAXPTS]; long n;
+    void take(circle_case const& c) {
+        n = c.n;
+        vp_assert(n <= MAXPTS, "circle.harness_capacity");
+        vp_assume(n <= MAXPTS);
+        for (long j = 0; j < n; ++j) {
+            long x = c.rx(j), y = c.ry(j);
+            vp_assert(x >= -64 && x <= 64 && y >= -64 && y <= 64, "circle.point_near_centre");
+            X[j] = (signed char)x; Y[j] = (signed char)y;
+        }
+    }
+};
 // the written set is closed under the 8 symmetries of the square about the centre
 void h_circle_sym(void) {
     circle_case c; c.input(); c.run();
-    for (long i = 0; i < c.n; ++i) {
-        long x = c.rx(i), y = c.ry(i);
-        bool all = c.has(-x, y) && c.has(x, -y) && c.has(-x, -y) && c.has(y, x) && c.has(-y, x) && c.has(y, -x) && c.has(-y, -x);
-        vp_assert(all, "circle.eight_fold_symmetric");
+    rel_set s; s.take(c);
+    long i = vp_range(0, (int)c.n - 1);
+    int x = s.X[i], y = s.Y[i];
+    bool f1 = false, f2 = false, f3 = false, f4 = false, f5 = false, f6 = false, f7 = false;
+    for (long j = 0; j < s.n; ++j) {
+        int u = s.X[j], v = s.Y[j];
+        f1 = f1 || (u == -x && v == y); f2 = f2 || (u == x && v == -y); f3 = f3 || (u == -x && v == -y);
+        f4 = f4 || (u == y && v == x); f5 = f5 || (u == -y && v == x); f6 = f6 || (u == y && v == -x); f7 = f7 || (u == -y && v == -x);
     }
+    vp_assert(f1, "circle.sym_mirror_x");
+    vp_assert(f2, "circle.sym_mirror_y");
+    vp_assert(f3, "circle.sym_rot180");
+    vp_assert(f4, "circle.sym_diag");
+    vp_assert(f5, "circle.sym_rot90");
+    vp_assert(f6, "circle.sym_rot270");
+    vp_assert(f7, "circle.sym_antidiag");
     c.done();
 }
 // the written set is a closed curve: for r >= 1 every point has two different 8-neighbours in the set (no gap, no loose end)
 void h_circle_closed(void) {
     circle_case c; c.input(); c.run();
-    for (long i = 0; i < c.n; ++i) {
-        long x = c.rx(i), y = c.ry(i);
-        bool one = false, two = false; long ax = 0, ay = 0;
-        for (long j = 0; j < c.n; ++j) {
-            long u = c.rx(j), v = c.ry(j);
-            bool adj = labs_(u - x) <= 1 && labs_(v - y) <= 1 && !(u == x && v == y);
-            if (adj && one && !(u == ax && v == ay)) two = true;
-            if (adj && !one) { one = true; ax = u; ay = v; }
-        }
-        vp_assert(c.r == 0 || two, "circle.closed_curve");
+    rel_set s; s.take(c);
+    long i = vp_range(0, (int)c.n - 1);
+    int x = s.X[i], y = s.Y[i];
+    bool one = false, two = false; int ax = 0, ay = 0;
+    for (long j = 0; j < s.n; ++j) {
+        int u = s.X[j], v = s.Y[j];
+        bool adj = u - x <= 1 && x - u <= 1 && v - y <= 1 && y - v <= 1 && !(u == x && v == y);
+        if (adj && one && !(u == ax && v == ay)) two = true;
+        if (adj && !one) { one = true; ax = u; ay = v; }
     }
+    vp_assert(c.r == 0 || two, "circle.closed_curve");
     c.done();
 }
 // apply_rasterizer on a view that contains the bounding box (pixel buffer of exactly the view's size): no access outside it
